@@ -269,10 +269,12 @@ func (f *g2lFn) rangeStmt(s *ast.RangeStmt, rest kont) []string {
 	var b binds
 	x := f.expr(&b, s.X)
 	lines = append(lines, b.lines...)
+	xTemp := false
 	if !isSimpleTerm(x) {
 		t := f.fresh("rx")
 		lines = append(lines, fmt.Sprintf("let %s := %s", t, x))
 		x = t
+		xTemp = true
 	}
 	ri := f.fresh("ri")
 	lines = append(lines, fmt.Sprintf("let %s := (0 : Int)", ri))
@@ -310,7 +312,7 @@ func (f *g2lFn) rangeStmt(s *ast.RangeStmt, rest kont) []string {
 			found = true
 		}
 	}
-	if !found {
+	if _, isId := s.X.(*ast.Ident); !found && (xTemp || !isId) && !strings.Contains(x, ".") {
 		captured = append([]nameType{{x, f.leanType(xt, s)}}, captured...)
 	}
 	keyName, valName := "_", "_"
